@@ -147,11 +147,24 @@ def normals (d : Dir) : List Child := d.children.filter fun c => isNormal d.isRo
 /-- `normalEnts[name]`. -/
 def hasNormal (d : Dir) (n : Str) : Bool := (normals d).any fun c => c.name == n
 
-/-- Whiteouts that survive "no entry replaces the target": `(target, .wh. child)`. -/
-def liveWhs (d : Dir) : List (Str × Child) :=
+/-- Targets `Lookup` never resolves (`readdir`'s whiteout loop skips them since 545b9cc): the empty name,
+`.`, `..`, any name that itself begins with `.wh.`, and — in the root — the two landmark names. -/
+def badTarget (isRoot : Bool) (t : Str) : Bool :=
+  t == [] || isDots t || isWh t || (isRoot && isLandmark t)
+
+/-- The whiteout loop before 545b9cc: `(target, .wh. child)` for every whiteout whose target is not the
+name of a normal entry.  Kept as a model variant for the documented counterexamples. -/
+def liveWhsOld (d : Dir) : List (Str × Child) :=
   d.children.filterMap fun c =>
     match whOf d.isRoot c.name with
     | some t => if hasNormal d t then none else some (t, c)
+    | none => none
+
+/-- Whiteouts that are listed: the target can be looked up and no entry replaces it. -/
+def liveWhs (d : Dir) : List (Str × Child) :=
+  d.children.filterMap fun c =>
+    match whOf d.isRoot c.name with
+    | some t => if badTarget d.isRoot t then none else if hasNormal d t then none else some (t, c)
     | none => none
 
 /-- Total order used to make the listing canonical.  Go sorts by name only (`sort.Slice`, unstable);
@@ -172,11 +185,16 @@ def sortBy {α} (le : α → α → Bool) (l : List α) : List α := l.foldr (in
 
 def dotEnts : List DirEnt := [⟨dot, S_IFDIR, 0⟩, ⟨dotdot, S_IFDIR, 0⟩]
 
-/-- `node.readdir` when nothing is memoised (`none` = EIO). -/
-def readdir (d : Dir) : Option (List DirEnt) :=
-  match mapOpt (normalEnt d.base) (normals d), mapOpt (fun p => whEnt d.base p.1 p.2) (liveWhs d) with
+def readdirWith (d : Dir) (whs : List (Str × Child)) : Option (List DirEnt) :=
+  match mapOpt (normalEnt d.base) (normals d), mapOpt (fun p => whEnt d.base p.1 p.2) whs with
   | some ns, some ws => some (sortBy entLe (ns ++ dotEnts ++ ws))
   | _, _ => none
+
+/-- `node.readdir` when nothing is memoised (`none` = EIO). -/
+def readdir (d : Dir) : Option (List DirEnt) := readdirWith d (liveWhs d)
+
+/-- `node.readdir` as it was before 545b9cc (every whiteout target listed). -/
+def readdirOld (d : Dir) : Option (List DirEnt) := readdirWith d (liveWhsOld d)
 
 /-! ## Lookup with its two caches -/
 
@@ -420,15 +438,17 @@ mutual
 /-- The tree the node API serves for a (non-root) TOC subtree: `readdir` at every directory. -/
 def serve (om : OpaqueMode) : Tree → Lower
   | .file a => .file a
-  | .dir a kids => .dir a (if hasName kids opaqueMarker then opaqueXattrs om else []) (serveKids om kids kids)
-def serveKids (om : OpaqueMode) (all : List (Str × Tree)) : List (Str × Tree) → List (Str × Lower)
+  | .dir a kids =>
+    .dir a (if hasName kids opaqueMarker then opaqueXattrs om else []) (serveKids om false kids kids)
+def serveKids (om : OpaqueMode) (isRoot : Bool) (all : List (Str × Tree)) :
+    List (Str × Tree) → List (Str × Lower)
   | [] => []
   | (n, t) :: rest =>
     match whTarget? n with
     | some tgt =>
-      if n = opaqueMarker ∨ hasReal all tgt then serveKids om all rest
-      else (tgt, .file (whAttr t.attr.id)) :: serveKids om all rest
-    | none => (n, serve om t) :: serveKids om all rest
+      if n = opaqueMarker ∨ badTarget isRoot tgt ∨ hasReal all tgt then serveKids om isRoot all rest
+      else (tgt, .file (whAttr t.attr.id)) :: serveKids om isRoot all rest
+    | none => (n, serve om t) :: serveKids om isRoot all rest
 end
 
 /-- Landmarks are hidden in "/" only. -/
@@ -437,7 +457,11 @@ def stripRoot : Tree → Tree
   | .dir a kids => .dir a (kids.filter fun p => !isLandmark p.1)
 
 /-- `Layer.RootNode` seen through `Readdir`/`Lookup`. -/
-def serveRoot (om : OpaqueMode) (t : Tree) : Lower := serve om (stripRoot t)
+def serveRoot (om : OpaqueMode) (t : Tree) : Lower :=
+  match stripRoot t with
+  | .file a => .file a
+  | .dir a kids =>
+    .dir a (if hasName kids opaqueMarker then opaqueXattrs om else []) (serveKids om true kids kids)
 
 mutual
 /-- OCI layer application of the subtree `t` on top of what is there (`acc`): whiteouts remove names,
@@ -573,6 +597,12 @@ inductive Ans
   | res (r : LRes)
 deriving Repr
 
+/-- A FUSE LOOKUP never carries the empty name.  (With a child named exactly `.wh.`, `Lookup("")` would
+find that whiteout before the listing is memoised and answer ENOENT afterwards.) -/
+def Op.valid : Op → Bool
+  | .lookup n _ => n != []
+  | .readdir => true
+
 def stepOp (d : Dir) (s : NodeSt) : Op → NodeSt × Ans
   | .readdir => ((readdirSt d s).1, .list (readdirSt d s).2)
   | .lookup name ad =>
@@ -609,16 +639,12 @@ def Inv (d : Dir) (s : NodeSt) : Prop :=
 /-- The metadata reader never lists a name twice (children come from a Go map). -/
 def NoDupNames (d : Dir) : Prop := (d.children.map (·.name)).Nodup
 
-/-- No whiteout of this directory targets a name that `Lookup` refuses outright: a name that itself
-begins with `.wh.`, or (in the root) a landmark name. -/
-def WhTargetsPlain (d : Dir) : Prop :=
-  ∀ c ∈ d.children, ∀ t, whOf d.isRoot c.name = some t →
-    isWh t = false ∧ (d.isRoot && isLandmark t) = false
-
 def lookupPure (d : Dir) (n : Str) : LRes := (lookupSt d {} n).2
 
-/-- The names `listing_lookup_agree` talks about: not `.`/`..`, not the state directory of the root. -/
-def Plain (d : Dir) (n : Str) : Prop := isDots n = false ∧ (d.isRoot && n == stateDirName) = false
+/-- The names `listing_lookup_agree` talks about: a name (non-empty) other than `.`/`..` and other than the
+state directory of the root. -/
+def Plain (d : Dir) (n : Str) : Prop :=
+  n ≠ [] ∧ isDots n = false ∧ (d.isRoot && n == stateDirName) = false
 
 /-! ### Name-level view of one layer directory, and the domain of the composition theorem -/
 
@@ -661,14 +687,18 @@ def appliedOf : List DirT → Option Tree
   | [] => none
   | d :: rest => some (ociApplyNode (.dir d.1 d.2) (appliedOf rest))
 
-def serveDir (om : OpaqueMode) (d : DirT) : LowerDir :=
-  (d.1, (if hasName d.2 opaqueMarker then opaqueXattrs om else []), serveKids om d.2 d.2)
+def serveDir (om : OpaqueMode) (isRoot : Bool) (d : DirT) : LowerDir :=
+  (d.1, (if hasName d.2 opaqueMarker then opaqueXattrs om else []), serveKids om isRoot d.2 d.2)
 
 /-- The served mode covers the xattr namespace the kernel reads. -/
 def compat (om : OpaqueMode) (kx : KX) : Bool := (opaqueXattrs om).contains (kxName kx)
 
+/-- A path component: not empty, not `.` or `..` (TOC names are cleaned paths). -/
+def validName (n : Str) : Bool := n != [] && !isDots n
+
 mutual
 /-- The domain of `overlay_equals_oci`, checked at every directory of the layer:
+  * real entries are named by path components (`validName`);
   * no directory has both a whiteout `.wh.x` and a real directory `x` (the property's exclusion);
   * no real entry is a 0/0 character device, no real directory carries the kernel's opaque xattr
     itself (overlayfs would read both as whiteout / opaque: plain lower directories cannot express them). -/
@@ -678,7 +708,7 @@ def okTree (kx : KX) : Tree → Bool
 def okKids (kx : KX) (all : List (Str × Tree)) : List (Str × Tree) → Bool
   | [] => true
   | (n, t) :: rest =>
-    (isWh n || (okTree kx t && !(t.isDir && hasWhiteoutFor all n))) && okKids kx all rest
+    (isWh n || (validName n && okTree kx t && !(t.isDir && hasWhiteoutFor all n))) && okKids kx all rest
 end
 
 def stripD (d : DirT) : DirT := (d.1, d.2.filter fun p => !isLandmark p.1)
@@ -697,13 +727,17 @@ def kidsOf : Option Tree → List (Str × Tree)
 def Sub.serve (om : OpaqueMode) : Sub → LSub
   | .absent => .absent
   | .file a => .file a
-  | .dirs ds => .dirs (ds.map (serveDir om))
+  | .dirs ds => .dirs (ds.map (serveDir om false))
 
 /-- The tree a name-level outcome stands for. -/
 def Sub.tree : Sub → Option Tree
   | .absent => none
   | .file f => some (.file f)
   | .dirs ds => appliedOf ds
+
+/-- At the root level (`isRoot`) the directories are already stripped of landmark entries. -/
+def NoLandmarkKids (isRoot : Bool) (tl : List DirT) : Prop :=
+  isRoot = true → ∀ d ∈ tl, ∀ p ∈ d.2, isLandmark p.1 = false
 
 /-- Every directory of the stack is in the domain. -/
 def OkDirs (kx : KX) (tl : List DirT) : Prop := ∀ d ∈ tl, okTree kx d.tree = true
